@@ -59,6 +59,20 @@ def verbQuery (fields : List Sexp) : String :=
     pure (encRunErr e ++ " " ++ encFacts out)
   r.getD "bad-case"
 
+/-- AUTHSEQ: (case (limits mf mi) (tokens token…) (ops op…) (rx …)) -/
+def verbAuthSeq (fields : List Sexp) : String :=
+  let r : Option String := do
+    let (mf, mi) ← match ← field "limits" fields with
+      | [.atom a, .atom b] => do pure (← a.toNat?, ← b.toNat?)
+      | _ => none
+    let toks ← (← field "tokens" fields).mapM decToken
+    let ops ← (← field "ops" fields).mapM decAuthOp
+    let cfg := cfgOf fields
+    let st : SeqState := { tok := 0, auth := AuthState.fresh { maxFacts := mf, maxIter := mi } }
+    let outs := runSeq cfg false toks st ops
+    pure (" ".intercalate (outs.filterMap encAuthOut))
+  r.getD "bad-case"
+
 def runVerb (verb : String) (sx : Sexp) : String :=
   match sx with
   | .list (.atom "case" :: fields) =>
@@ -66,6 +80,7 @@ def runVerb (verb : String) (sx : Sexp) : String :=
     | "EXPR" => verbExpr fields
     | "RUN" => verbRun fields
     | "QUERY" => verbQuery fields
+    | "AUTHSEQ" => verbAuthSeq fields
     | _ => "bad-verb"
   | _ => "bad-case"
 
